@@ -133,12 +133,12 @@ def run(ctx, prop, shapes=None, strategies=('default',), focus=None):
     quick = ctx.tier == 'quick'
     shapes = shapes or (QUICK_SHAPES[prop] if quick else ALL_SHAPES)
     level = 3 if quick else 5
-    nbeh = 700 if quick else 6000
-    nsim = 120 if quick else 2500
+    nbeh = 700 if quick else 4000
+    nsim = 120 if quick else 1200
     if len(strategies) > 1:
         nbeh = nbeh // 2
         nsim = nsim // 3
-    jobs = [(shape, level, nbeh, ctx.seed * 1000 + i * 10, tuple(strategies), ctx.scratch.dir, 4 if quick else 2, nsim, 14 if quick else 20, 3 if quick else 4, 20 if quick else 300) for i, shape in enumerate(shapes)]
+    jobs = [(shape, level, nbeh, ctx.seed * 1000 + i * 10, tuple(strategies), ctx.scratch.dir, 4 if quick else 2, nsim, 14 if quick else 20, 3 if quick else 4, 20 if quick else 180) for i, shape in enumerate(shapes)]
     mp = multiprocessing.get_context('fork')
     with mp.Pool(min(len(jobs), 8)) as pool:
         results = [r for rs in pool.map(_one_shape, jobs) for r in rs]
